@@ -1,10 +1,12 @@
 use crate::util::Tier;
 
 pub mod c01;
+pub mod c02;
 pub mod c03;
 pub mod c04;
 pub mod c05;
 pub mod c06;
+pub mod c07;
 pub mod c08;
 pub mod c09;
 pub mod c10;
@@ -19,10 +21,12 @@ pub fn dispatch(id: &str, tier: Tier, seed: u64, rest: &[String]) -> i32 {
     match id {
         "selftest" => selftest::main(),
         "C01" => c01::main(tier, seed),
+        "C02" => c02::main(tier, seed),
         "C03" => c03::main(tier, seed),
         "C04" => c04::main(tier, seed),
         "C05" => c05::main(tier, seed),
         "C06" => c06::main(tier, seed),
+        "C07" => c07::main(tier, seed),
         "C08" => c08::main(tier, seed, rest),
         "C09" => c09::main(tier, seed),
         "C12" => c12::main(tier, seed),
